@@ -188,6 +188,17 @@ def axi_check(kind, case, rec):
     rvec = np.asarray(body.assemble.vector(fa).toarray()).ravel().copy()
     rec.nontrivial = mesh.ncells >= 2
     if kind == "energy":
+        # the same body in another length unit (coordinates and displacements times L, e.g. metres instead of millimetres or
+        # nanometres): the deformation gradient is the same, the nodal forces (energy per length) scale by L^2
+        L = (1e-9, 1e-6, 1e-3, 1e3, 1e-9)[(case["seed"] // 2 + case["n"][0] + case["n"][1]) % 5]
+        mesh_l = mesh.copy(points=X * L)
+        region_l = Rcls(mesh_l)
+        fl_ = fem.FieldContainer([fem.FieldAxisymmetric(region_l, dim=2)])
+        fl_[0].values[...] = ua * L
+        rl = np.asarray(fem.SolidBody(um, fl_).assemble.vector(fl_).toarray()).ravel()
+        rec.close("axisymmetric forces in another length unit = L^2 forces", float(np.abs(rl / L**2 - rvec).max()) / max(float(np.abs(rvec).max()), 1e-9), 1e-9, {"L": L})
+        rec.label("length-unit=%g" % L)
+
         def energy(uv):
             fa[0].values[...] = uv.reshape(-1, 2)
             Fq = np.asarray(fa.extract()[0])
